@@ -25,7 +25,7 @@ CFG = {
     "technique": "Coq proof (stream-parser combinators with a threshold invariant; induction over records/lines) + "
                  "exhaustive cut-point correspondence in capped child processes",
     "design_ref": "DESIGN.md §4 C14",
-    "n_quick": 64, "n_thorough": 480,
+    "n_quick": 64, "n_thorough": 640,
     "rule": "valid files of 8 kinds in rotation: STL; PLY ascii/le/be through polyform's writer (point clouds, "
             "triangle meshes, +-normals, +-uchar colours, +-per-face texcoord lists, +-extra scalar); PLY through an "
             "independent encoder (float/double positions, uchar rgb/rgba, int column, tri+quad faces, uchar/uint list "
